@@ -32,6 +32,7 @@ type Session struct {
 	lastMaxInflight int
 	lastFlushTrace  string
 	graph           *graphTracker
+	keyCompare      func(a, b interface{}) (int, error)
 	lastActs        int
 	lastHsync       string
 	ctx             context.Context
@@ -61,6 +62,7 @@ func (s *Session) remoteConfig() *mast.RemoteConfig {
 		ValuesLike:              s.Cfg.ValuesLike(),
 		StoreImmutablePartsWith: s.Store,
 		NodeCache:               s.Cache,
+		KeyCompare:              s.keyCompare,
 	}
 }
 
